@@ -335,6 +335,10 @@ func (vt *Model) cht(ps int) {
 		vt.cursor.col = ts
 		n += 1
 	}
+	// Tab stops exist beyond the right edge of narrow screens
+	if vt.cursor.col > vt.margin.right {
+		vt.cursor.col = vt.margin.right
+	}
 }
 
 // Erase in Display (ED) CSI Ps J
